@@ -142,6 +142,14 @@ class LearningSwitch (object):
         msg.in_port = event.port
         self.connection.send(msg)
 
+    if self.macToPort.get(packet.src, event.port) != event.port:
+      # The source has moved.  Flows installed for its traffic at the old
+      # port must go: if it ever returns there, they would forward its
+      # frames without telling us, and we'd keep sending its traffic here.
+      msg = of.ofp_flow_mod(command = of.OFPFC_DELETE)
+      msg.match.dl_src = packet.src
+      self.connection.send(msg)
+
     self.macToPort[packet.src] = event.port # 1
 
     if not self.transparent: # 2
